@@ -192,7 +192,18 @@ func ZZ_C15_Cut() {
 		return
 	}
 	zzCheckModel(cf2, map[uint64][]index.Data{zzIDs[0]: first}, "after-cut")
-	cf2.Close()
+	// further history: the lost output is stored again, the service is shut down and started again
+	third := []index.Data{{Direction: index.DirectionServerToClient, Content: zz.Bytes("c", 1), Time: zzT0}}
+	zz.Assert(cf2.setData(zzIDs[1], zzT0, third) == nil, "cut.store-again.noerr")
+	zzCheckModel(cf2, map[uint64][]index.Data{zzIDs[0]: first, zzIDs[1]: third}, "after-cut-and-store")
+	zz.Assert(cf2.Close() == nil, "close.noerr")
+	cf3, err := NewCacheFile(path)
+	zz.Assert(err == nil, "cut.store-again.reopens")
+	if err != nil {
+		return
+	}
+	zzCheckModel(cf3, map[uint64][]index.Data{zzIDs[0]: first, zzIDs[1]: third}, "after-cut-store-and-reopen")
+	cf3.Close()
 }
 
 // Witness of known finding C15-invalidate-not-persisted: store, invalidate,
